@@ -639,8 +639,11 @@ def run_root(root, ctx, tier):
                                               len(root.get("prefix", [])) + root["depth"])
         if len(ctx.samples) < 2:
             h = sysm.initial(root)
-            ctx.sample(dict(root=root, states=len(seen),
-                            menu=[{k: v for k, v in op.items()} for op in sysm.menu(h)][:12]))
+            n, dt = h.rec.ns.n_samples, h.rec.ns.dt_in_seconds
+            ctx.sample(dict(root=root, states=len(seen), menu=sysm.menu(h),
+                            trim_reference_in_first_state=[
+                                dict(interval=lab, a=a, b=b, **RT.expected(n, dt, a, b))
+                                for lab, a, b in intervals(n, dt)]))
     finally:
         shutil.rmtree(tmp, ignore_errors=True)
 
